@@ -16,6 +16,7 @@
      EDestroy       main: ~ThreadPool pushes one nullptr per worker
      EJoin k        main: threads_[k].join() returns (worker k has exited)                     *)
 From Coq Require Import List ZArith Bool Arith.
+From MJV Require Import Model.Island Model.ParMap.
 Import ListNotations.
 Open Scope Z_scope.
 
@@ -134,3 +135,11 @@ Definition held1 (w : wstate) : list Z := match w with WTook t | WRun t => [t] |
 Definition held (l : list wstate) : list Z := flat_map held1 l.
 
 Fixpoint zseq (n : nat) : list Z := match n with O => [] | S k => zseq k ++ [Z.of_nat k] end.
+
+(* ---- an asset task with hidden per-thread state (e.g. a `static thread_local` pseudo-random generator that is seeded
+   once per thread and keeps its state from one texture to the next): array 1 holds one output word per asset, array 22
+   one generator state per thread (per-thread scratch).  The task reads its thread's generator state BEFORE writing it,
+   derives its output from it and stores the advanced state. *)
+Definition tl_site : list (Z * table) := [ (1%Z, TKey [0; 1]%Z); (22%Z, TThread 1%Z) ].
+Definition tl_task (i t : nat) : prog Z :=
+  Read (22%Z, Z.of_nat t) (fun st : Z => Write (1%Z, Z.of_nat i) (st * 7 + 1)%Z (Write (22%Z, Z.of_nat t) (st + 1)%Z Done)).
